@@ -108,6 +108,24 @@ TIES = {
    'bp-cm-set-order': ed(CK, ("            r'\\bPACKAGE package\\b',\n            r'\\bCopyright \\S+ YEAR\\b',", "            r'\\bCopyright \\S+ YEAR\\b',\n            r'\\bPACKAGE package\\b',"), ("                r'\\bFIRST AUTHOR\\b',\n                r'<EMAIL@ADDRESS>',", "                r'<EMAIL@ADDRESS>',\n                r'\\bFIRST AUTHOR\\b',")),
    'bp-cm-positive-form': ed(CK, ("            if match is None:\n                continue\n            self.tag('boilerplate-in-initial-comments', line)", "            if match is not None:\n                self.tag('boilerplate-in-initial-comments', line)")),
    'bp-cm-rename': ed(CK, ("        regex = re.compile(str.join('|', regexs))\n        for line in ctx.file.header.splitlines():\n            match = regex.search(line)\n            if match is None:", "        boilerplate = re.compile(str.join('|', regexs))\n        for line in ctx.file.header.splitlines():\n            match = boilerplate.search(line)\n            if match is None:")),
+   # check_mime
+   'mm-version-literal': ed(CK, ("            if mime_version != '1.0':", "            if mime_version != '1.1':")),
+   'mm-strip': ed(CK, ("            if mime_version != '1.0':", "            if mime_version.strip(' ') != '1.0':")),
+   'mm-cte-dup-threshold': ed(CK, ("        if len(ctes) > 1:", "        if len(ctes) > 2:")),
+   'mm-no-return': ed(CK, ("            self.tag('no-content-type-header-field', tags.safestr('Content-Type: ' + content_type_hint))\n            return\n", "            self.tag('no-content-type-header-field', tags.safestr('Content-Type: ' + content_type_hint))\n")),
+   'mm-charset-boilerplate-in-template': ed(CK, ("                    if encoding == 'CHARSET':\n                        if not ctx.is_template:\n                            self.tag('boilerplate-in-content-type', ct)", "                    if encoding == 'CHARSET':\n                        self.tag('boilerplate-in-content-type', ct)")),
+   'mm-unknown-keeps-encoding': ed(CK, ("                        self.tag('unknown-encoding', encoding)\n                    encoding = None", "                        self.tag('unknown-encoding', encoding)\n                        encoding = None")),
+   'mm-portable-test-first': ed(CK, ("                    if not is_ascii_compatible:\n                        self.tag('non-ascii-compatible-encoding', encoding)\n                    elif encinfo.is_portable_encoding(encoding):\n                        pass", "                    if encinfo.is_portable_encoding(encoding):\n                        pass\n                    elif not is_ascii_compatible:\n                        self.tag('non-ascii-compatible-encoding', encoding)")),
+   'mm-proposal-not-adopted': ed(CK, ("                            self.tag('non-portable-encoding', encoding, '=>', new_encoding)\n                            encoding = new_encoding", "                            self.tag('non-portable-encoding', encoding, '=>', new_encoding)")),
+   'mm-truncate-at-six': ed(CK, ("                            if len(unrepresentable_characters) > 5:", "                            if len(unrepresentable_characters) > 6:")),
+   'mm-hint-without-encoding': ed(CK, ("                    if encoding is not None:\n                        content_type_hint = content_type_hint.replace('<encoding>', encoding)\n", "")),
+   'mm-invalid-ct-when-prefix': ed(CK, ("                if match.group(1) is None:", "                if match.group(1) is not None:")),
+   'mm-encoding-any': ed(CK, ("        if len(encodings) == 1:\n            [ctx.encoding] = encodings", "        if len(encodings) >= 1:\n            ctx.encoding = sorted(encodings)[0]")),
+   'mm-missing-ok': ed(CK, ("is_ascii_compatible = encinfo.is_ascii_compatible_encoding(encoding, missing_ok=False)", "is_ascii_compatible = encinfo.is_ascii_compatible_encoding(encoding)")),
+   'bp-mm-rename': ed(CK, ("        for mime_version in mime_versions:\n            if mime_version != '1.0':\n                self.tag('invalid-mime-version', mime_version, '=>', '1.0')", "        for mv in mime_versions:\n            if mv != '1.0':\n                self.tag('invalid-mime-version', mv, '=>', '1.0')")),
+   'bp-mm-not-eq': ed(CK, ("            if cte != '8bit':", "            if not (cte == '8bit'):")),
+   'bp-mm-pass-branch': ed(CK, ("                    elif encinfo.is_portable_encoding(encoding):\n                        pass\n                    else:\n                        new_encoding = encinfo.propose_portable_encoding(encoding)", "                    elif not encinfo.is_portable_encoding(encoding):\n                        new_encoding = encinfo.propose_portable_encoding(encoding)")),
+   'bp-mm-hint-hoisted': ed(CK, ("        encodings = set()\n        for ct in cts:\n            content_type_hint = 'text/plain; charset=<encoding>'\n", "        encodings = set()\n        for ct in cts:\n            # what the field should look like:\n            content_type_hint = 'text/plain; charset=<encoding>'\n")),
   }},
 }
 tie_edits.TIES.update(TIES)
